@@ -174,6 +174,27 @@ def check_class(ctx, u, cls, fs, kind):
         on_existing = [x for x in stores if not any((ref_decl(n_) or {}).get('id') in created and pol for n_, pol in atoms(path_facts(x)))]
         ctx.check(bool(on_existing), R, '%s::insert(%s)|existing-key-takes-new-value' % (lab, (qtype(vp) or '').replace('std::', '')), stores[0] if stores else f, 'the entry\'s value is assigned from the argument on the existing-key path',
                   'insert() of a key that is already present never stores the new value (%s): at() keeps returning the old one' % ('the only store is on the new-entry path' if stores else 'no assignment to the entry\'s value'))
+    # the key pointer an item keeps (evict_object hands it out, erase looks it up) points at the map node's own key
+    for f in fs:
+        if 'Map' not in lab or body_of(f) is None:
+            continue
+        kn = 0
+        for x in walk(body_of(f)):
+            if x.get('kind') == 'BinaryOperator' and x.get('opcode') == '=' and strip(x['inner'][0]).get('kind') == 'MemberExpr' and strip(x['inner'][0]).get('name') == 'key' and '*' in (qtype(strip(x['inner'][0])) or ''):
+                kn += 1
+                r0 = strip(x['inner'][1])
+                while r0 is not None and r0.get('kind') in ('ImplicitCastExpr', 'ParenExpr') and kids(r0):
+                    r0 = strip(kids(r0)[0])
+                key_ = '%s::%s(%s)|key-pointer#%d' % (lab, f.get('name'), ','.join((qtype(p_) or '').replace('std::', '') for p_ in params_of(f)), kn)
+                tgt = strip(kids(r0)[0]) if r0 is not None and r0.get('kind') == 'UnaryOperator' and r0.get('opcode') == '&' else None
+                if tgt is not None and tgt.get('kind') == 'MemberExpr' and tgt.get('name') == 'first':
+                    ctx.ok(R, key_, x, 'the item\'s key pointer is the address of the map node\'s key')
+                elif tgt is not None and (ref_decl(tgt) or {}).get('kind') == 'ParmVarDecl':
+                    ctx.bad(R, key_, x, 'the item keeps `%s`, the address of the caller\'s argument, as its key: after the call returns the pointer dangles (or names whatever the caller stores there next), so evict_object returns and erases the wrong key' % src_text(x['inner'][1], 30))
+                elif r0 is not None and r0.get('kind') in ('CXXNullPtrLiteralExpr', 'GNUNullExpr'):
+                    pass
+                else:
+                    ctx.undecided(R, key_, x, 'the key pointer is set from `%s`' % src_text(x['inner'][1], 40))
     n_erase = 0
     for f in fs:
         body = body_of(f)
